@@ -212,7 +212,7 @@ def run(ctx):
             r = servers.wsgi_call(app, req) if iface == "wsgi" else servers.asgi_call(app, req)
             ctx.count()
             ctx.traces_validated += 1
-            enc = w if iface == "wsgi" else (lambda x: x)
+            enc = (lambda x: x)     # both interfaces deliver the text itself
             obs = {"status": r.status, "route": rec.hit[0] if rec.hit else None,
                    "params": {k: (type(v).__name__, str(v)) for k, v in rec.hit[1].items()} if rec.hit else None,
                    "exc": type(r.exc).__name__ if r.exc else None}
